@@ -49,7 +49,12 @@ NOTES = {
              '(EnArrSz / EnArrCnt) became a core description',
     'C04-4': 'the change breaks the re-encode clause only; C04 had delegated that clause to C02 + C03. The c04r harness '
              '(encode(decode_full(b)) == ref_encode(ref_decode(b))) was added and runs on the core pair OptChild in the quick tier',
-    'C05-3': 'first MISSED (f5_shared_flag was not a core description and was not in the seed-chosen slice); now core (TwoSame, TwoOpp)',
+    'C02-3': 'MISSED by the C02 quick command (arrays of payload-bearing / derived structs are heavy types, which carry only c03/c05 '
+             'core pairs in the quick tier); the C03 quick command catches it (c03_Inner of f2_derived_elem, reproduced natively)',
+    'C05-3': 'first MISSED twice: f5_shared_flag was not a core description; once core, c05_TwoSame still held on the mutant because '
+             'draw_<T> derived the presence of every optional field from the one flag bit, so contradictory Option patterns were never '
+             'drawn. Presence is now drawn independently per field after the first; caught (logs: verif_C05_before_corpus_extension, '
+             'verif_C05_after_core_before_draw_fix, verif_C05)',
     'C06-3': 'MISSED, same reason as C06-1: every harness that involves a child with its own payload below an unsized parent payload '
              '(c06s/c06t of the parent, c06v of that child) does not finish under CBMC — re-measured in this session: c06s_P at input '
              'bound 3 did not finish in 900 s with the machine otherwise idle; reported as UNDECIDED, never as held',
